@@ -1402,10 +1402,11 @@ func (w *Wallet) swapToSend(
 		return nil, fmt.Errorf("error getting active sat keyset: %v", err)
 	}
 
-	splitForSendAmount := cashu.AmountSplit(amount)
-	var feesToReceive uint = 0
+	split := cashu.AmountSplit(amount)
 	if includeFees {
-		feesToReceive = feesForCount(len(splitForSendAmount)+1, activeSatKeyset)
+		// amounts for amount + the fees the receiver will pay to spend exactly these proofs
+		var feesToReceive uint
+		split, feesToReceive = splitIncludingFees(amount, activeSatKeyset)
 		amount += uint64(feesToReceive)
 	}
 
@@ -1419,7 +1420,6 @@ func (w *Wallet) swapToSend(
 	var rs, changeRs []*secp256k1.PrivateKey
 	var counter, incrementCounterBy uint32
 
-	split := append(splitForSendAmount, cashu.AmountSplit(uint64(feesToReceive))...)
 	slices.Sort(split)
 	// if no spendingCondition passed, create blinded messages from counter
 	if spendingCondition == nil {
@@ -1591,6 +1591,37 @@ func (w *Wallet) splitWalletTarget(amountToSplit uint64, mint string) []uint64 {
 	slices.Sort(amounts)
 
 	return amounts
+}
+
+// splitIncludingFees returns the amounts of the proofs to send so that the receiver
+// nets exactly amount after paying the input fees for those very proofs, and the fees
+// that were included. The fees depend on the number of proofs, which in turn depends
+// on the fees: look for the smallest fees for which amount+fees can be split into a
+// number of proofs that costs exactly those fees (splitting a proof further raises
+// the count without changing the sum).
+func splitIncludingFees(amount uint64, keyset *crypto.WalletKeyset) ([]uint64, uint) {
+	for fees := uint(0); fees <= feesForCount(crypto.MAX_ORDER, keyset)+1; fees++ {
+		split := cashu.AmountSplit(amount + uint64(fees))
+		for feesForCount(len(split), keyset) < fees {
+			// split the biggest proof that can still be split in two
+			slices.Sort(split)
+			last := len(split) - 1
+			if last < 0 || split[last] < 2 {
+				break
+			}
+			half := split[last] / 2
+			split[last] = half
+			split = append(split, half)
+		}
+		if feesForCount(len(split), keyset) == fees {
+			return split, fees
+		}
+	}
+
+	// should not be reached. Fall back to the plain estimate
+	split := cashu.AmountSplit(amount)
+	fees := feesForCount(len(split)+1, keyset)
+	return append(split, cashu.AmountSplit(uint64(fees))...), fees
 }
 
 func calculateBlankOutputs(feeReserve uint64) int {
